@@ -644,6 +644,7 @@ class Interp:
         self.watch_cells = set()
         self.watch_all = 0           # when n > 0: log every store through a reference, and plain stores in the n outermost frames
         self.regions = []
+        self.item_paths = []
         self.loops = {}
         self.nloop = 0
         self.cong_atoms = set()      # atoms whose residue class may be split on demand
@@ -1571,7 +1572,19 @@ class Interp:
 
     def leaf_app(self, st, b, args, extra=()):
         rt = b["locals"][0]
-        return VApp(b["def"], tuple(args) + tuple(extra), rt)
+        t = self.f.types[rt]
+        app = VApp(b["def"], tuple(args) + tuple(extra), rt)
+        if t["k"] == "int":
+            # an integer result may be used in further arithmetic: an atom with the result's range
+            tr = ty_range(t["w"], t["s"])
+            r = None
+            try:
+                r = self.app_int_range(st, app)
+            except Unanalysable:
+                r = None
+            lo, hi = (tr.min(), tr.max()) if (r is None or r.is_empty()) else (max(tr.min(), r.min()), min(tr.max(), r.max()))
+            return VInt(t["w"], t["s"], lin=Lin.atom(("app", b["def"], tuple(valkey(a) for a in app.args), lo, hi)))
+        return app
 
     def call_closure_body(self, st, b, selfv, argtuple, ctx):
         cv = selfv
@@ -1591,7 +1604,7 @@ class Interp:
                 ups.append(self.read_ref(st, u) if isinstance(u, VRef) else u)
             items = [self.norm(st, a) for a in items]
             self.leaf_calls.setdefault(b["def"], []).append((tuple(items) + tuple(ups), st))
-            return [(st, VApp(b["def"], tuple(items) + tuple(ups), b["locals"][0]))]
+            return [(st, self.leaf_app(st, b, tuple(items) + tuple(ups)))]
         # closure body takes self as declared in its MIR (by ref or by value)
         selft = self.f.types[b["locals"][1]]
         if selft["k"] == "ref":
@@ -1690,11 +1703,14 @@ class Interp:
         if isinstance(a, VBool):
             d = st.decide(a.cond)
             return IntSet.range(0, 1) if d is None else IntSet.of(int(d))
+        if isinstance(a, VSlice):
+            # for a slice argument the summary depends on the possible lengths
+            return ("len", st.lin_set(a.len).intersect(IntSet.range(0, MAXLEN)))
         return None
 
     def leaf_summary(self, defn, argsets):
         """partition of the leaf's argument space into (St, result) paths; cached"""
-        key = (defn, tuple(None if s is None else s.iv for s in argsets))
+        key = (defn, tuple(None if s is None else (s.iv if isinstance(s, IntSet) else ("len", s[1].iv)) for s in argsets))
         cache = self.__dict__.setdefault("_leaf_cache", {})
         if key in cache:
             return cache[key]
@@ -1759,6 +1775,8 @@ class Interp:
             return VFloat(("farg", name))
         if t["k"] == "ref" and self.f.types[t["ty"]]["k"] == "slice":
             atoms.append(None)
+            if isinstance(aset, tuple) and aset[0] == "len":
+                st.pc.sets[("len", "$" + name)] = aset[1]
             return VSlice("$" + name, Lin.const(0), Lin.atom(("len", "$" + name)))
         raise Unanalysable("leaf parameter type " + t["text"])
 
